@@ -59,6 +59,8 @@ struct Converter<MsgPackBinary> : private detail::VariantAttorney {
             ARDUINOJSON_ASSERT(false);
         }
         memcpy(ptr + headerSize, src.data(), src.size());
+        // the node joins the pool of copied strings: terminate it like the others
+        ptr[headerSize + src.size()] = 0;
         data->setRawString(str);
         return;
       }
